@@ -145,8 +145,23 @@ namespace c12
    template< typename R > struct act_t : std::conditional_t< std::is_base_of_v< thrower, R >, act_tag_void< R >, nothing< R > > {};
    // family "5": std::runtime_error by predicate on (rule, begin, end), on every rule that is control-enabled in the
    // grammar itself; rules hidden from the control (internal::seq ...) carry no action, as in user code
-   // family "v": bool apply vetoing by vh::veto_pred( rule, begin, end ) on every rule that is control-enabled in the grammar itself
-   template< typename R > struct act_v : std::conditional_t< TAO_PEGTL_NAMESPACE::internal::enable_control< R >, vh::b_apply_bool< 3, R >, nothing< R > > {};
+   // family "v": bool apply vetoing by vh::veto_pred( rule, begin, end ) on every NAMED rule of the grammar
+   //             except on the grammar's root (a veto there would turn every run into "no tree")
+   inline int& cur_root() { static int r = -1; return r; }
+   template< typename R >
+   struct b_apply_bool_nr
+   {
+      template< typename AI, typename... S >
+      static bool apply( const AI& in, S&&... s )
+      {
+         vh::log_apply( 3, vh::index_of< R >(), in, s... );
+         if( vh::index_of< R >() == cur_root() ) {
+            return true;
+         }
+         return vh::veto_pred( vh::index_of< R >(), in.position().byte, in.input().position().byte );
+      }
+   };
+   template< typename R > struct act_v : std::conditional_t< vh::is_named< R >, b_apply_bool_nr< R >, nothing< R > > {};
    template< typename R > struct act_5 : std::conditional_t< TAO_PEGTL_NAMESPACE::internal::enable_control< R >, vh::b_apply_throw_std< 5, R >, nothing< R > > {};
 
    template< typename R >
@@ -246,6 +261,8 @@ namespace c12
    {
       vh::lg().clear();
       vh::steps() = 0;
+      vh::tripped() = 0;
+      vh::lstack().clear();
       std::string res;
       try {
          res = f();
@@ -253,8 +270,14 @@ namespace c12
       catch( const vh::runaway& ) {
          res = "RUNAWAY";
       }
+      catch( const vh::budget_exhausted& ) {
+         res = "RUNAWAY";
+      }
       catch( ... ) {
          res = "X" + vh::describe_exception( std::current_exception() );
+      }
+      if( vh::tripped() != 0 ) {
+         res = "RUNAWAY";      // a catch( ... ) inside the grammar may have swallowed the signal
       }
       log = vh::lg();
       return res;
@@ -269,6 +292,7 @@ namespace c12
       std::string tree = "-";
       std::string log1;
       int within = 1;
+      cur_root() = root;
       const std::string r1 = guarded( log1, [ & ]() {
          memory_input<> in( buf, buf + s.size(), "s" );
          const auto t = pt::parse< G, pt::node, Sel, Act, Ctl >( in );
@@ -285,8 +309,9 @@ namespace c12
    }
    // (2) the plain parse, (3) the plain parse with every rule control-enabled; sel = "-"
    template< typename G, template< typename... > class Act, template< typename... > class Ctl, template< typename... > class CtlAll >
-   void run_plain( const int gid, const int /*root*/, const std::string& /*sel*/, const std::string& act, const std::string& s )
+   void run_plain( const int gid, const int root, const std::string& /*sel*/, const std::string& act, const std::string& s )
    {
+      cur_root() = root;
       char* buf = new char[ s.size() ? s.size() : 1 ];
       std::memcpy( buf, s.data(), s.size() );
       std::string log2, log3;
